@@ -89,6 +89,20 @@ func c20Refused() []c20RefusedReq {
 		{"self edge on N", func(nc *nats.Conn) error {
 			return client.SendEdgePoints(nc, "N", "N", data.Points{{Type: data.PointTypeTombstone, Value: 0, Time: c20ts(51), Origin: "x"}, {Type: data.PointTypeNodeType, Text: "vtest"}}, true)
 		}},
+		{"edge that would make the root a child of N (cycle)", func(nc *nats.Conn) error {
+			rn, err := client.GetRootNode(nc)
+			if err != nil {
+				return nil // (counts as accepted: reported by the caller)
+			}
+			return client.SendEdgePoints(nc, rn.ID, "N", data.Points{{Type: data.PointTypeTombstone, Value: 0, Time: c20ts(55), Origin: "x"}, {Type: data.PointTypeNodeType, Text: "device"}}, true)
+		}},
+		{"tombstone on the root", func(nc *nats.Conn) error {
+			rn, err := client.GetRootNode(nc)
+			if err != nil {
+				return nil
+			}
+			return client.SendEdgePoints(nc, rn.ID, "root", data.Points{{Type: data.PointTypeTombstone, Value: 1, Time: c20ts(56), Origin: "x"}}, true)
+		}},
 		{"NaN node point on N", func(nc *nats.Conn) error {
 			return client.SendNodePoints(nc, "N", data.Points{{Type: "nanv", Value: math.NaN(), Time: c20ts(52), Origin: "y"}}, true)
 		}},
@@ -222,11 +236,11 @@ func c20Threads() []c20Thread {
 			}
 			_ = m
 		}},
-		{"X refused edge writes (new edge without node type, self edge)", func(inst *sh.Inst, nc *nats.Conn, rec *c20Rec, tol bool) {
-			c20Refuse(nc, rec, tol, "X", c20Refused()[:2])
+		{"X refused edge writes (new edge without node type, self edge, cycle through the root, root tombstone)", func(inst *sh.Inst, nc *nats.Conn, rec *c20Rec, tol bool) {
+			c20Refuse(nc, rec, tol, "X", c20Refused()[:4])
 		}},
 		{"Y refused node writes (NaN values)", func(inst *sh.Inst, nc *nats.Conn, rec *c20Rec, tol bool) {
-			c20Refuse(nc, rec, tol, "Y", c20Refused()[2:])
+			c20Refuse(nc, rec, tol, "Y", c20Refused()[4:])
 		}},
 	}
 }
@@ -472,7 +486,7 @@ func TestC20(t *testing.T) {
 				Rule: "the triples {W1,W2,R}, {W1,W2,V}, {W1,R,V}, {W2,R,V}: all schedules with at most 3 preemptions; same oracles"},
 				c20Body(t, c20Triples(false)[:4], false, 3))
 		}
-		rule := "threads = concurrent clients of one real store: W1 node-point writer (write, read-own-write, write), W2 edge-point writer, R reader (monotonic reads), V admin.storeVerify, X and Y clients whose requests must be refused (X: new edge without node type, self edge; Y: NaN values) next to W1, W2 / R and next to each other (each must get its own error text)%s; all triples; scheduling points = every message delivery, every SQL operation and every writeLock.Lock in store/sqlite.go, and every reply leaving the store; all schedules with at most %d preemptions; oracles: every request answered (no deadlock), acknowledged writes visible, reads never go back, final content = newest acknowledged writes, hashes consistent, storeMaint has nothing to repair"
+		rule := "threads = concurrent clients of one real store: W1 node-point writer (write, read-own-write, write), W2 edge-point writer, R reader (monotonic reads), V admin.storeVerify, X and Y clients whose requests must be refused (X: new edge without node type, self edge, cycle through the root, root tombstone; Y: NaN values) next to W1, W2 / R and next to each other (each must get its own error text)%s; all triples; scheduling points = every message delivery, every SQL operation and every writeLock.Lock in store/sqlite.go, and every reply leaving the store; all schedules with at most %d preemptions; oracles: every request answered (no deadlock), acknowledged writes visible, reads never go back, final content = newest acknowledged writes, hashes consistent, storeMaint has nothing to repair"
 		extra := ", M admin.storeMaint (with V and a writer / reader, and with both writers)"
 		if thorough() {
 			extra = ", M admin.storeMaint, more triples with M and X, and W1 W2 R V together"
